@@ -267,7 +267,7 @@ func c11Scenarios() []*explore.Scenario {
 }
 
 func c11(c *core.Ctx) {
-	c.Budget(120*time.Second, 14*time.Minute)
+	c.Budget(180*time.Second, 14*time.Minute)
 	c.SetRule("scenarios: ServeConn(SSession(SFileSys(mock))) after negotiation, with nothing / stat / walk-to-new-fid / attach / a read blocked until cancelled (alone, with its own flush, with a clunk of the same fid and the flush) / stat+clunk in flight; 150 fids bound at the disconnect (one schedule); one fault: peer close (after 0-1 replies), cancellation of the serving context, a write error on any reply, a read error on any read (the latter two as 1 deviation placed at every conn call); file-system calls complete at scheduling points; every interleaving up to the bound. Oracle at quiescence: ServeConn returned, no task it started is still blocked (a handler blocked on its context proves it was not cancelled), Stop ran exactly once, no panic, and with every handler returned no fid is bound and every entry handed to the session was released exactly once. outcome = client end state + replies + handles")
 	c.Assume("'bounded time' is decided as quiescence with the environment frozen: ServeConn still parked when nothing is enabled is a hang", "handlers return once cancelled (the mock's blocking read returns on ctx.Done())")
 	var plans []Plan
